@@ -8,6 +8,7 @@ import (
 	"encoding/binary"
 	"fmt"
 	"os"
+	"regexp"
 	"runtime/pprof"
 	"strings"
 	"testing"
@@ -245,7 +246,8 @@ func vfE4GenTrailing(r *vfRand, hist map[string]int) ([]byte, []string) {
 // afterwards: the bad-name matrix on REGISTER / UNREGISTER (so `getTopicChan` is reached: E_BAD_TOPIC /
 // E_BAD_CHANNEL), re-IDENTIFY in several shapes, unknown / mis-cased commands, over-long lines, argument counts —
 // after 0–3 valid commands (whose registrations must be gone after the error).
-func vfE4GenIdentified(r *vfRand, hist map[string]int) []byte {
+func vfE4GenIdentified(r *vfRand, hist map[string]int) ([]byte, []string) {
+	expect := ""
 	var buf bytes.Buffer
 	buf.WriteString("  V1IDENTIFY\n")
 	body := vfE4IdentifyBody([]byte(vfE4Pick(r, []string{"hX", "hY", "hA"})), []byte("nX"), []byte("v9"), 1+r.Intn(3), 4151+r.Intn(2))
@@ -264,9 +266,11 @@ func vfE4GenIdentified(r *vfRand, hist map[string]int) []byte {
 			buf.WriteString(" " + vfE4Pick(r, vfE4GoodNames))
 		}
 		buf.WriteString("\n")
+		expect = vfE4ExpectNameErr(buf.Bytes())
 		hist["ident:bad-topic"]++
 	case k < 12:
 		buf.WriteString(cmd + " " + vfE4Pick(r, vfE4GoodNames) + " " + vfE4Pick(r, vfE4BadNames[1:]) + "\n")
+		expect = vfE4ExpectNameErr(buf.Bytes())
 		hist["ident:bad-channel"]++
 	case k < 15:
 		// re-IDENTIFY shapes: bare, with size+body, with a negative size, with arguments, padded, truncated size
@@ -287,6 +291,7 @@ func vfE4GenIdentified(r *vfRand, hist map[string]int) []byte {
 		default:
 			buf.WriteString("IDENTIFY\n\x00\x00")
 		}
+		expect = "E_INVALID"
 		hist[fmt.Sprintf("ident:re-identify-%d", shape)]++
 	case k < 17:
 		buf.WriteString(vfE4Pick(r, []string{"register t", "Unregister t c", "PINGX", "PUB t", "SUB t c", "NOP", "\x00", "REGISTER\tt c", "IDENTIFY2", ""}) + "\n")
@@ -305,7 +310,28 @@ func vfE4GenIdentified(r *vfRand, hist map[string]int) []byte {
 		buf.WriteString("PING\nREGISTER after c\n") // never executed: every error is fatal
 	}
 	hist["stream:identified-hostile"]++
-	return buf.Bytes()
+	if expect != "" {
+		// what the protocol description demands as the LAST reply, judged by the generator itself (independent of the
+		// model and of the package's own name check): python oracle `documented-error-missing`
+		return buf.Bytes(), []string{"expect=" + expect}
+	}
+	return buf.Bytes(), nil
+}
+
+var vfE4NameRe = regexp.MustCompile(`^[.a-zA-Z0-9_-]+(#ephemeral)?$`)
+
+// vfE4ExpectNameErr: the error the LAST line of the stream (REGISTER/UNREGISTER <topic> [<channel>] …) must get
+func vfE4ExpectNameErr(stream []byte) string {
+	lines := strings.Split(strings.TrimSuffix(string(stream), "\n"), "\n")
+	f := strings.Split(lines[len(lines)-1], " ")
+	ok := func(n string) bool { return len(n) >= 1 && len(n) <= 64 && vfE4NameRe.MatchString(n) }
+	if len(f) < 2 || !ok(f[1]) {
+		return "E_BAD_TOPIC"
+	}
+	if len(f) >= 3 && f[2] != "" && !ok(f[2]) {
+		return "E_BAD_CHANNEL"
+	}
+	return "" // e.g. the bad name contained a blank and fell apart into two good ones
 }
 
 // vfE4MagicPins: the magic is pinned by behaviour (the textual tie cannot tell "  V1" from " V1")
@@ -464,7 +490,7 @@ func TestVerifE4Hostile(t *testing.T) {
 			} else if r.Intn(5) == 0 {
 				data, toks = vfE4GenTrailing(r, hist)
 			} else if r.Intn(2) == 0 {
-				data = vfE4GenIdentified(r, hist)
+				data, toks = vfE4GenIdentified(r, hist)
 			} else {
 				data, _ = vfE4GenStream(r, noneg, hist)
 			}
@@ -522,7 +548,7 @@ func TestVerifE4HttpSweep(t *testing.T) {
 	}
 	topics := []string{"_", "t", "new1", "e#ephemeral", "bad name!", "", "*", strings.Repeat("n", 65)}
 	chans := []string{"_", "c", "d#ephemeral", "bad name", "", "*"}
-	nodes := []string{"_", vfE4Bystander, "nobody:1", ""}
+	nodes := []string{"_", vfE4Bystander, "nobody:1", "", "*"}
 	id := 1
 	count := 0
 	emit := func(m, p, bad, tp, ch, nd string) {
